@@ -139,6 +139,7 @@ pub fn run(args: &Args, rep: &mut Report) {
     rep.add("days_unchecked_inside_long_intervals", st.days_unchecked);
     rep.add("skipped_days_point_checked", st.skipped_days_checked);
     rep.add("skips_observed", st.skips);
+    rep.add("long_skips_not_expanded_day_by_day", st.skips_not_expanded);
     rep.max("longest_skip_days", st.max_skip);
     for (i, b) in stream::SKIP_BUCKETS.iter().enumerate() {
         rep.add(&format!("skip_length_days.{b}"), st.skip_hist[i]);
